@@ -76,10 +76,18 @@ type Addr struct {
 }
 
 // World is one manager under test plus harness bookkeeping.
+// Retained is an address object handed out while the manager was locked, kept to
+// be asked for its key after a later unlock.
+type Retained struct {
+	MA waddrmgr.ManagedAddress
+	E  *Addr
+}
+
 type World struct {
-	Handles   []Handle // C05: objects obtained and used while unlocked
-	Abandoned bool     // a goroutine is parked inside the manager: do not Close
-	Neutered  bool     // the master HD root key was deleted (NeuterRootKey)
+	DerivedLocked []Retained // C03: objects from DeriveFromKeyPath obtained while locked
+	Handles       []Handle   // C05: objects obtained and used while unlocked
+	Abandoned     bool       // a goroutine is parked inside the manager: do not Close
+	Neutered      bool       // the master HD root key was deleted (NeuterRootKey)
 	// PrivCryptoKey is a copy of the private crypto key, taken (verif hook) while the
 	// manager was unlocked; it never changes over the life of a wallet
 	PrivCryptoKey []byte
@@ -256,6 +264,7 @@ func (w *World) open() error {
 // Restart closes manager and database and opens them again.
 func (w *World) Restart() error {
 	w.Handles = nil // objects of the manager being closed
+	w.DerivedLocked = nil
 	w.M.Close()
 	if err := w.DB.Close(); err != nil {
 		return err
